@@ -4,13 +4,13 @@
      C01_fragment_preservation -- semantic preservation of the backend model (Back/IR.v `lower` + the AST
      twin Pres/EmitAst.v of the text emitter Back/Emit.v) with respect to the reference interpreter
      Sem/SyltSem.v (source side) and the Lua 5.3 interpreter model Lua/LuaCore.v (target side), for the
-     computable fragment Pres/Frag.v `frag` (STAGE 4c: int/bool expressions, print, definitions, assignments
+     computable fragment Pres/Frag.v `frag` (STAGE 4c': int/bool expressions, print, definitions, assignments
      = += -= *=, if/elif/else expressions and statements, loops with break and continue, blocks, inside
      top-level functions; the outer definitions (global values and FUNCTIONS with parameters, `start` among them, in any
      order the resolver gives them),
      called by name, recursion included; the value of a function is that of its last expression or of an
-     early `ret e`, also from inside if-branches and loops; LOCAL FUNCTIONS at the top level of a function body,
-     nested to any depth, that capture the variables of the enclosing functions, MUTABLE locals included -- the
+     early `ret e`, also from inside if-branches and loops; LOCAL FUNCTIONS in any statement list (function bodies,
+     blocks, loop bodies -- every pass its own closure over its own locals --, if-branches), nested to any depth, that capture the variables of the enclosing functions, MUTABLE locals included -- the
      closure and its definer share the variable and see each other's later assignments, every activation has its
      own locals -- called by name).  The Lua side runs the statements of the
      REAL preamble.lua (Gen/GenPreamble.v, regenerated on every run) followed by the program's statements.
@@ -484,9 +484,81 @@ Proof.
   cbn [r_final] in Hfin. destruct (o_final _); try contradiction. reflexivity.
 Qed.
 
+(* ---- a ninth program (stage 4c'): local functions inside a loop body, an if-branch and a block; every pass of the
+   loop has its own `j` and its own closure `addj` over it ----
+     start :: fn do
+       total := 0
+       i := 0
+       loop i < 3 do
+         i += 1
+         j :: i * 10
+         addj :: fn k: int -> int do total += j + k  total end
+         print(addj(i))                                                  -- 11, 33, 106
+         if i == 2 do
+           twice :: fn -> int do addj(0) + addj(0) end
+           print(twice())                                                -- 53 + 73
+         end
+       end
+       do  g :: fn -> int do total * 2 end  print(g())  end            -- 212
+       print(total)                                                      -- 106
+     end                                                                                          *)
+Definition call f args := Resolved.ECall (ERead f sp0) args sp0.
+Definition ex_prog9 : resolved :=
+  mkResolved
+    [mkVar 0 "print" sp0 true Const; mkVar 1 "start" sp0 true Const; mkVar 2 "== STACK ==" sp0 false Const;
+     mkVar 3 "total" sp0 false Mutable; mkVar 4 "i" sp0 false Mutable; mkVar 5 "j" sp0 false Const; mkVar 6 "addj" sp0 false Const;
+     mkVar 7 "k" sp0 false Const; mkVar 8 "twice" sp0 false Const; mkVar 9 "g" sp0 false Const]
+    [SExternalDefinition "print" 0 Const (TImplied sp0) sp0;
+     SDefinition "start" 1 Const (TImplied sp0)
+       (EFunction "lambda" [] (TImplied sp0)
+          [SDefinition "total" 3 Mutable (TImplied sp0) (EInt 0 sp0) sp0;
+           SDefinition "i" 4 Mutable (TImplied sp0) (EInt 0 sp0) sp0;
+           SLoop (EBinOp Less (ERead 4 sp0) (EInt 3 sp0) sp0)
+             [SAssignment Add (ERead 4 sp0) (EInt 1 sp0) sp0;
+              SDefinition "j" 5 Const (TImplied sp0) (EBinOp Mul (ERead 4 sp0) (EInt 10 sp0) sp0) sp0;
+              SDefinition "addj" 6 Const (TImplied sp0)
+                (EFunction "lambda" [("k"%string, 7%N, sp0, TImplied sp0)] (TImplied sp0)
+                   [SAssignment Add (ERead 3 sp0) (EBinOp Add (ERead 5 sp0) (ERead 7 sp0) sp0) sp0;
+                    SStatementExpression (ERead 3 sp0) sp0] false sp0) sp0;
+              SStatementExpression (call 0 [call 6 [ERead 4 sp0]]) sp0;
+              SStatementExpression
+                (EIf [IfBranch (Some (EBinOp Equals (ERead 4 sp0) (EInt 2 sp0) sp0))
+                        [SDefinition "twice" 8 Const (TImplied sp0)
+                           (EFunction "lambda" [] (TImplied sp0)
+                              [SStatementExpression (EBinOp Add (call 6 [EInt 0 sp0]) (call 6 [EInt 0 sp0]) sp0) sp0] false sp0) sp0;
+                         SStatementExpression (call 0 [call 8 []]) sp0] sp0] sp0) sp0] sp0;
+           SBlock
+             [SDefinition "g" 9 Const (TImplied sp0)
+                (EFunction "lambda" [] (TImplied sp0)
+                   [SStatementExpression (EBinOp Mul (ERead 3 sp0) (EInt 2 sp0) sp0) sp0] false sp0) sp0;
+              SStatementExpression (call 0 [call 9 []]) sp0] sp0;
+           SStatementExpression (call 0 [ERead 3 sp0]) sp0]
+          false sp0) sp0].
+
+Example C01_example9_hypotheses :
+  frag 30 ex_prog9 = true /\
+  (exists code, lower 30 ex_prog9 = Ok code) /\
+  SyltSem.run 60 ex_prog9 = mkRun ["11"; "33"; "126"; "106"; "212"; "106"]%string ODone.
+Proof. split; [vm_compute; reflexivity | split; [eexists; vm_compute; reflexivity | vm_compute; reflexivity]]. Qed.
+
+Theorem C01_loop_iteration_closures_by_theorem code :
+  lower 30 ex_prog9 = Ok code ->
+  exists m, forall m', (m <= m')%nat ->
+    let out := LuaCore.run_block Lua53 m' (chunk_ast code) in
+    o_trace out = ["11"; "33"; "126"; "106"; "212"; "106"]%string /\ o_final out = FDone.
+Proof.
+  intros Hl.
+  assert (Hf : frag 30 ex_prog9 = true) by (vm_compute; reflexivity).
+  assert (Hr : SyltSem.run 60 ex_prog9 = mkRun ["11"; "33"; "126"; "106"; "212"; "106"]%string ODone) by (vm_compute; reflexivity).
+  destruct (C01_fragment_preservation 30 ex_prog9 code 60 _ Hf Hl Hr I) as (m & Hm).
+  exists m. intros m' Hle. specialize (Hm m' Hle). cbv zeta in *. destruct Hm as [Ht Hfin]. split; [exact Ht|].
+  cbn [r_final] in Hfin. destruct (o_final _); try contradiction. reflexivity.
+Qed.
+
 Print Assumptions C01_fragment_preservation.
 Print Assumptions C01_fragment_preservation_text.
 Print Assumptions C01_activations_own_locals_by_theorem.
+Print Assumptions C01_loop_iteration_closures_by_theorem.
 
 (* ---- source tie: the hand-written model behind these theorems mirrors the files below; the digests of their
    functions regenerated from /repo on this run equal the reviewed ones (coq/Doc/DocSrcDigest.v).  Any edit of
